@@ -1423,6 +1423,102 @@ package analysis
 //@   loop 6: invariant forall k in dom(s.allSchemas) :: old(k in dom(s.allSchemas)) || schAt(k, *schema, prefix, name)
 //@   loop 7: invariant forall k in dom(s.allSchemas) :: old(k in dom(s.allSchemas)) || schAt(k, *schema, prefix, name)
 
+// BEGIN schemas-doc (generated by /verif/tools/gen_schemas_doc.py)
+//@ func (s *Spec) analyzeParameter(prefix, i, param)
+//@   aspect schemas
+//@   requires s != nil && idxMaps(s)
+//@   modifies map s.references.parameters, map s.references.allRefs, map s.patterns.parameters, map s.patterns.allPatterns, map s.enums.parameters, map s.enums.allEnums, map s.references.items, map s.references.headerItems, map s.references.parameterItems, map s.patterns.items, map s.enums.items, map s.allSchemas, map s.allOfs, map s.references.schemas, map s.patterns.schemas, map s.enums.schemas
+//@   ensures (forall k string :: old(k in dom(s.allSchemas)) ==> k in dom(s.allSchemas))
+//@   ensures param.In == "body" && param.Schema != nil ==> (forall k string :: schAt(k, *param.Schema, path.Join(prefix, "parameters", strconv.Itoa(i)), "schema") ==> k in dom(s.allSchemas))
+
+//@ func (s *Spec) analyzeDefaultResponse(prefix, res)
+//@   aspect schemas
+//@   requires s != nil && res != nil && idxMaps(s)
+//@   modifies map s.references.responses, map s.references.allRefs, map s.patterns.headers, map s.patterns.allPatterns, map s.enums.headers, map s.enums.allEnums, map s.references.items, map s.references.headerItems, map s.references.parameterItems, map s.patterns.items, map s.enums.items, map s.allSchemas, map s.allOfs, map s.references.schemas, map s.patterns.schemas, map s.enums.schemas
+//@   ensures (forall k string :: old(k in dom(s.allSchemas)) ==> k in dom(s.allSchemas))
+//@   ensures res.Schema != nil ==> (forall k string :: schAt(k, *res.Schema, path.Join(prefix, "responses", "default"), "schema") ==> k in dom(s.allSchemas))
+//@   loop 1: invariant (forall k string :: old(k in dom(s.allSchemas)) ==> k in dom(s.allSchemas))
+
+//@ func (s *Spec) analyzeResponse(prefix, k, res)
+//@   aspect schemas
+//@   requires s != nil && idxMaps(s)
+//@   modifies map s.references.responses, map s.references.allRefs, map s.patterns.headers, map s.patterns.allPatterns, map s.enums.headers, map s.enums.allEnums, map s.references.items, map s.references.headerItems, map s.references.parameterItems, map s.patterns.items, map s.enums.items, map s.allSchemas, map s.allOfs, map s.references.schemas, map s.patterns.schemas, map s.enums.schemas
+//@   ensures forall kk string :: old(kk in dom(s.allSchemas)) ==> kk in dom(s.allSchemas)
+//@   ensures res.Schema != nil ==> (forall kk string :: schAt(kk, *res.Schema, path.Join(prefix, "responses", strconv.Itoa(k)), "schema") ==> kk in dom(s.allSchemas))
+//@   loop 1: invariant forall kk string :: old(kk in dom(s.allSchemas)) ==> kk in dom(s.allSchemas)
+
+//@ func (s *Spec) analyzeOperation(method, path, op)
+//@   aspect schemas
+//@   requires s != nil && idxMaps(s) && opsWF(s)
+//@   modifies map s.operations, heap map[string]*spec.Operation, map s.consumes, map s.produces, map s.authSchemes, map s.allSchemas, map s.allOfs, map s.references.schemas, map s.references.responses, map s.references.parameters, map s.references.items, map s.references.headerItems, map s.references.parameterItems, map s.references.allRefs, map s.references.pathItems, map s.patterns.parameters, map s.patterns.headers, map s.patterns.items, map s.patterns.schemas, map s.patterns.allPatterns, map s.enums.parameters, map s.enums.headers, map s.enums.items, map s.enums.schemas, map s.enums.allEnums
+//@   ensures opsWF(s)
+//@   ensures (forall k string :: old(k in dom(s.allSchemas)) ==> k in dom(s.allSchemas))
+//@   ensures op != nil ==> forall i in 0..len(op.Parameters) :: (op.Parameters[i].In == "body" && op.Parameters[i].Schema != nil ==> (forall k string :: schAt(k, *op.Parameters[i].Schema, slashpath.Join(slashpath.Join("/paths", jsonpointer.Escape(path), strings.ToLower(method)), "parameters", strconv.Itoa(i)), "schema") ==> k in dom(s.allSchemas)))
+//@   ensures op != nil && op.Responses != nil && op.Responses.Default != nil ==> (op.Responses.Default.Schema != nil ==> (forall k string :: schAt(k, *op.Responses.Default.Schema, slashpath.Join(slashpath.Join("/paths", jsonpointer.Escape(path), strings.ToLower(method)), "responses", "default"), "schema") ==> k in dom(s.allSchemas)))
+//@   ensures op != nil && op.Responses != nil ==> forall c in dom(op.Responses.StatusCodeResponses) :: (op.Responses.StatusCodeResponses[c].Schema != nil ==> (forall k string :: schAt(k, *op.Responses.StatusCodeResponses[c].Schema, slashpath.Join(slashpath.Join("/paths", jsonpointer.Escape(path), strings.ToLower(method)), "responses", strconv.Itoa(c)), "schema") ==> k in dom(s.allSchemas)))
+//@   loop 1: modifies map s.consumes
+//@   loop 2: modifies map s.produces
+//@   loop 3: modifies map s.authSchemes
+//@   loop 4: modifies map s.authSchemes
+//@   loop 5: modifies heap spec.Parameter, map s.allSchemas, map s.allOfs, map s.references.schemas, map s.references.responses, map s.references.parameters, map s.references.items, map s.references.headerItems, map s.references.parameterItems, map s.references.allRefs, map s.patterns.parameters, map s.patterns.headers, map s.patterns.items, map s.patterns.schemas, map s.patterns.allPatterns, map s.enums.parameters, map s.enums.headers, map s.enums.items, map s.enums.schemas, map s.enums.allEnums
+//@   loop 6: modifies heap spec.Response, map s.allSchemas, map s.allOfs, map s.references.schemas, map s.references.responses, map s.references.parameters, map s.references.items, map s.references.headerItems, map s.references.parameterItems, map s.references.allRefs, map s.patterns.parameters, map s.patterns.headers, map s.patterns.items, map s.patterns.schemas, map s.patterns.allPatterns, map s.enums.parameters, map s.enums.headers, map s.enums.items, map s.enums.schemas, map s.enums.allEnums
+//@   loop 5: invariant opsWF(s) && (forall k string :: old(k in dom(s.allSchemas)) ==> k in dom(s.allSchemas))
+//@   loop 5: invariant forall j in 0..idx :: (op.Parameters[j].In == "body" && op.Parameters[j].Schema != nil ==> (forall k string :: schAt(k, *op.Parameters[j].Schema, slashpath.Join(prefix, "parameters", strconv.Itoa(j)), "schema") ==> k in dom(s.allSchemas)))
+//@   loop 6: invariant opsWF(s) && (forall k string :: old(k in dom(s.allSchemas)) ==> k in dom(s.allSchemas))
+//@   loop 6: invariant forall j in 0..len(op.Parameters) :: (op.Parameters[j].In == "body" && op.Parameters[j].Schema != nil ==> (forall k string :: schAt(k, *op.Parameters[j].Schema, slashpath.Join(prefix, "parameters", strconv.Itoa(j)), "schema") ==> k in dom(s.allSchemas)))
+//@   loop 6: invariant op.Responses.Default != nil ==> (op.Responses.Default.Schema != nil ==> (forall k string :: schAt(k, *op.Responses.Default.Schema, slashpath.Join(prefix, "responses", "default"), "schema") ==> k in dom(s.allSchemas)))
+//@   loop 6: invariant forall c in seen :: (op.Responses.StatusCodeResponses[c].Schema != nil ==> (forall k string :: schAt(k, *op.Responses.StatusCodeResponses[c].Schema, slashpath.Join(prefix, "responses", strconv.Itoa(c)), "schema") ==> k in dom(s.allSchemas)))
+
+//@ func (s *Spec) analyzeOperations(path, pi)
+//@   aspect schemas
+//@   requires s != nil && pi != nil && idxMaps(s) && opsWF(s)
+//@   modifies heap spec.Parameter, map s.operations, heap map[string]*spec.Operation, map s.consumes, map s.produces, map s.authSchemes, map s.allSchemas, map s.allOfs, map s.references.schemas, map s.references.responses, map s.references.parameters, map s.references.items, map s.references.headerItems, map s.references.parameterItems, map s.references.allRefs, map s.references.pathItems, map s.patterns.parameters, map s.patterns.headers, map s.patterns.items, map s.patterns.schemas, map s.patterns.allPatterns, map s.enums.parameters, map s.enums.headers, map s.enums.items, map s.enums.schemas, map s.enums.allEnums
+//@   ensures opsWF(s)
+//@   ensures (forall k string :: old(k in dom(s.allSchemas)) ==> k in dom(s.allSchemas))
+//@   ensures forall i in 0..len(pi.Parameters) :: (pi.Parameters[i].Schema != nil ==> (forall k string :: schAt(k, *pi.Parameters[i].Schema, slashpath.Join("/paths", jsonpointer.Escape(path), "parameters", strconv.Itoa(i)), "schema") ==> k in dom(s.allSchemas)))
+//@   loop 1: modifies heap spec.Parameter, map s.allSchemas, map s.allOfs, map s.references.schemas, map s.references.responses, map s.references.parameters, map s.references.items, map s.references.headerItems, map s.references.parameterItems, map s.references.allRefs, map s.patterns.parameters, map s.patterns.headers, map s.patterns.items, map s.patterns.schemas, map s.patterns.allPatterns, map s.enums.parameters, map s.enums.headers, map s.enums.items, map s.enums.schemas, map s.enums.allEnums
+//@   loop 1: invariant opsWF(s) && (forall k string :: old(k in dom(s.allSchemas)) ==> k in dom(s.allSchemas))
+//@   loop 1: invariant forall j in 0..idx :: (op.Parameters[j].Schema != nil ==> (forall k string :: schAt(k, *op.Parameters[j].Schema, slashpath.Join("/paths", jsonpointer.Escape(path), "parameters", strconv.Itoa(j)), "schema") ==> k in dom(s.allSchemas)))
+
+//@ func (s *Spec) initialize()
+//@   aspect schemas
+//@   requires s != nil && s.spec != nil && idxMaps(s) && opsWF(s)
+//@   modifies heap spec.Parameter, heap spec.PathItem, map s.operations, heap map[string]*spec.Operation, map s.consumes, map s.produces, map s.authSchemes, map s.allSchemas, map s.allOfs, map s.references.schemas, map s.references.responses, map s.references.parameters, map s.references.items, map s.references.headerItems, map s.references.parameterItems, map s.references.allRefs, map s.references.pathItems, map s.patterns.parameters, map s.patterns.headers, map s.patterns.items, map s.patterns.schemas, map s.patterns.allPatterns, map s.enums.parameters, map s.enums.headers, map s.enums.items, map s.enums.schemas, map s.enums.allEnums
+//@   ensures forall p in dom(docPaths(s)) :: forall i in 0..len(docPaths(s)[p].Parameters) :: (docPaths(s)[p].Parameters[i].Schema != nil ==> (forall k string :: schAt(k, *docPaths(s)[p].Parameters[i].Schema, slashpath.Join("/paths", jsonpointer.Escape(p), "parameters", strconv.Itoa(i)), "schema") ==> k in dom(s.allSchemas)))
+//@   ensures forall n in dom(s.spec.Parameters) :: (s.spec.Parameters[n].In == "body" && s.spec.Parameters[n].Schema != nil ==> (forall k string :: schAt(k, *s.spec.Parameters[n].Schema, slashpath.Join("/parameters", jsonpointer.Escape(n)), "schema") ==> k in dom(s.allSchemas)))
+//@   ensures forall n in dom(s.spec.Responses) :: (s.spec.Responses[n].Schema != nil ==> (forall k string :: schAt(k, *s.spec.Responses[n].Schema, slashpath.Join("/responses", jsonpointer.Escape(n)), "schema") ==> k in dom(s.allSchemas)))
+//@   ensures forall n in dom(s.spec.Definitions) :: (forall k string :: schAt(k, s.spec.Definitions[n], "/definitions", n) ==> k in dom(s.allSchemas))
+//@   loop 1: modifies map s.consumes
+//@   loop 2: modifies map s.produces
+//@   loop 3: modifies map s.authSchemes
+//@   loop 4: modifies map s.authSchemes
+//@   loop 5: modifies heap spec.Parameter, heap spec.PathItem, map s.operations, heap map[string]*spec.Operation, map s.consumes, map s.produces, map s.authSchemes, map s.allSchemas, map s.allOfs, map s.references.schemas, map s.references.responses, map s.references.parameters, map s.references.items, map s.references.headerItems, map s.references.parameterItems, map s.references.allRefs, map s.references.pathItems, map s.patterns.parameters, map s.patterns.headers, map s.patterns.items, map s.patterns.schemas, map s.patterns.allPatterns, map s.enums.parameters, map s.enums.headers, map s.enums.items, map s.enums.schemas, map s.enums.allEnums
+//@   loop 6: modifies map s.allSchemas, map s.allOfs, map s.references.schemas, map s.references.responses, map s.references.parameters, map s.references.items, map s.references.headerItems, map s.references.parameterItems, map s.references.allRefs, map s.references.pathItems, map s.patterns.parameters, map s.patterns.headers, map s.patterns.items, map s.patterns.schemas, map s.patterns.allPatterns, map s.enums.parameters, map s.enums.headers, map s.enums.items, map s.enums.schemas, map s.enums.allEnums
+//@   loop 7: modifies map s.allSchemas, map s.allOfs, map s.references.schemas, map s.references.responses, map s.references.parameters, map s.references.items, map s.references.headerItems, map s.references.parameterItems, map s.references.allRefs, map s.references.pathItems, map s.patterns.parameters, map s.patterns.headers, map s.patterns.items, map s.patterns.schemas, map s.patterns.allPatterns, map s.enums.parameters, map s.enums.headers, map s.enums.items, map s.enums.schemas, map s.enums.allEnums
+//@   loop 8: modifies map s.allSchemas, map s.allOfs, map s.references.schemas, map s.references.responses, map s.references.parameters, map s.references.items, map s.references.headerItems, map s.references.parameterItems, map s.references.allRefs, map s.references.pathItems, map s.patterns.parameters, map s.patterns.headers, map s.patterns.items, map s.patterns.schemas, map s.patterns.allPatterns, map s.enums.parameters, map s.enums.headers, map s.enums.items, map s.enums.schemas, map s.enums.allEnums
+//@   loop 9: modifies map s.allSchemas, map s.allOfs, map s.references.schemas, map s.references.responses, map s.references.parameters, map s.references.items, map s.references.headerItems, map s.references.parameterItems, map s.references.allRefs, map s.references.pathItems, map s.patterns.parameters, map s.patterns.headers, map s.patterns.items, map s.patterns.schemas, map s.patterns.allPatterns, map s.enums.parameters, map s.enums.headers, map s.enums.items, map s.enums.schemas, map s.enums.allEnums
+//@   loop 5: invariant opsWF(s) && (forall k string :: old(k in dom(s.allSchemas)) ==> k in dom(s.allSchemas))
+//@   loop 5: invariant forall p in seen :: p in dom(docPaths(s))
+//@   loop 5: invariant forall p in seen :: forall i in 0..len(docPaths(s)[p].Parameters) :: (docPaths(s)[p].Parameters[i].Schema != nil ==> (forall k string :: schAt(k, *docPaths(s)[p].Parameters[i].Schema, slashpath.Join("/paths", jsonpointer.Escape(p), "parameters", strconv.Itoa(i)), "schema") ==> k in dom(s.allSchemas)))
+//@   loop 6: invariant (forall k string :: old(k in dom(s.allSchemas)) ==> k in dom(s.allSchemas))
+//@   loop 6: invariant forall p in dom(docPaths(s)) :: forall i in 0..len(docPaths(s)[p].Parameters) :: (docPaths(s)[p].Parameters[i].Schema != nil ==> (forall k string :: schAt(k, *docPaths(s)[p].Parameters[i].Schema, slashpath.Join("/paths", jsonpointer.Escape(p), "parameters", strconv.Itoa(i)), "schema") ==> k in dom(s.allSchemas)))
+//@   loop 6: invariant forall n in seen :: (s.spec.Parameters[n].In == "body" && s.spec.Parameters[n].Schema != nil ==> (forall k string :: schAt(k, *s.spec.Parameters[n].Schema, slashpath.Join("/parameters", jsonpointer.Escape(n)), "schema") ==> k in dom(s.allSchemas)))
+//@   loop 7: invariant (forall k string :: old(k in dom(s.allSchemas)) ==> k in dom(s.allSchemas))
+//@   loop 7: invariant forall p in dom(docPaths(s)) :: forall i in 0..len(docPaths(s)[p].Parameters) :: (docPaths(s)[p].Parameters[i].Schema != nil ==> (forall k string :: schAt(k, *docPaths(s)[p].Parameters[i].Schema, slashpath.Join("/paths", jsonpointer.Escape(p), "parameters", strconv.Itoa(i)), "schema") ==> k in dom(s.allSchemas)))
+//@   loop 7: invariant forall n in dom(s.spec.Parameters) :: (s.spec.Parameters[n].In == "body" && s.spec.Parameters[n].Schema != nil ==> (forall k string :: schAt(k, *s.spec.Parameters[n].Schema, slashpath.Join("/parameters", jsonpointer.Escape(n)), "schema") ==> k in dom(s.allSchemas)))
+//@   loop 7: invariant forall n in seen7 :: (s.spec.Responses[n].Schema != nil ==> (forall k string :: schAt(k, *s.spec.Responses[n].Schema, slashpath.Join("/responses", jsonpointer.Escape(n)), "schema") ==> k in dom(s.allSchemas)))
+//@   loop 8: invariant (forall k string :: old(k in dom(s.allSchemas)) ==> k in dom(s.allSchemas))
+//@   loop 8: invariant forall p in dom(docPaths(s)) :: forall i in 0..len(docPaths(s)[p].Parameters) :: (docPaths(s)[p].Parameters[i].Schema != nil ==> (forall k string :: schAt(k, *docPaths(s)[p].Parameters[i].Schema, slashpath.Join("/paths", jsonpointer.Escape(p), "parameters", strconv.Itoa(i)), "schema") ==> k in dom(s.allSchemas)))
+//@   loop 8: invariant forall n in dom(s.spec.Parameters) :: (s.spec.Parameters[n].In == "body" && s.spec.Parameters[n].Schema != nil ==> (forall k string :: schAt(k, *s.spec.Parameters[n].Schema, slashpath.Join("/parameters", jsonpointer.Escape(n)), "schema") ==> k in dom(s.allSchemas)))
+//@   loop 8: invariant forall n in seen7 :: n != key7 ==> (s.spec.Responses[n].Schema != nil ==> (forall k string :: schAt(k, *s.spec.Responses[n].Schema, slashpath.Join("/responses", jsonpointer.Escape(n)), "schema") ==> k in dom(s.allSchemas)))
+//@   loop 9: invariant (forall k string :: old(k in dom(s.allSchemas)) ==> k in dom(s.allSchemas))
+//@   loop 9: invariant forall p in dom(docPaths(s)) :: forall i in 0..len(docPaths(s)[p].Parameters) :: (docPaths(s)[p].Parameters[i].Schema != nil ==> (forall k string :: schAt(k, *docPaths(s)[p].Parameters[i].Schema, slashpath.Join("/paths", jsonpointer.Escape(p), "parameters", strconv.Itoa(i)), "schema") ==> k in dom(s.allSchemas)))
+//@   loop 9: invariant forall n in dom(s.spec.Parameters) :: (s.spec.Parameters[n].In == "body" && s.spec.Parameters[n].Schema != nil ==> (forall k string :: schAt(k, *s.spec.Parameters[n].Schema, slashpath.Join("/parameters", jsonpointer.Escape(n)), "schema") ==> k in dom(s.allSchemas)))
+//@   loop 9: invariant forall n in dom(s.spec.Responses) :: (s.spec.Responses[n].Schema != nil ==> (forall k string :: schAt(k, *s.spec.Responses[n].Schema, slashpath.Join("/responses", jsonpointer.Escape(n)), "schema") ==> k in dom(s.allSchemas)))
+//@   loop 9: invariant forall n in seen :: (forall k string :: schAt(k, s.spec.Definitions[n], "/definitions", n) ==> k in dom(s.allSchemas))
+
+// END schemas-doc
+
 // ---------------------------------------------------------------- analyzer.go: the operations index (C14)
 
 // opsWF: the per-method operation maps exist and are distinct objects
